@@ -27,14 +27,14 @@ theorem nIdle_pos_of_idle (locks : List Bool) (i : Nat) (h : locks[i]? = some fa
   Nat.lt_of_le_of_lt (Nat.zero_le _) (rank_lt locks i h)
 
 /-- **the total of the probability matrix is the number of idle slots; entries are ≥ 0** -/
-theorem prob_total {s : St} {H : List (Nat × Nat)} {tn tn' : Nat} (hc : Core s H tn') (hf : Fam s tn) :
+theorem prob_total {s : St} {H : List (Nat × Nat)} {tn tn' : Nat} (hc : CoreR s H tn') (hf : Fam s tn) :
     ((prob s).map List.sum).sum = (nIdle s.locks : Rat) ∧ ∀ i j, 0 ≤ entryM (prob s) i j := by
   have hWL : s.W.length = s.locks.length := by rw [hc.lenW, hc.lenL]
   exact ⟨probMatrix_total s.W s.locks hWL (ne_of_gt hf.perm),
     fun i j => probMatrix_nonneg s.W s.locks hWL (hf.nonneg hc) hf.perm i j⟩
 
 /-- with an idle slot some `(t, e)` has positive probability -/
-theorem exists_pos_entry {s : St} {H : List (Nat × Nat)} {tn tn' : Nat} (hc : Core s H tn') (hf : Fam s tn)
+theorem exists_pos_entry {s : St} {H : List (Nat × Nat)} {tn tn' : Nat} (hc : CoreR s H tn') (hf : Fam s tn)
     (i : Nat) (hi : s.locks[i]? = some false) : ∃ t e, 0 < entryM (prob s) t e := by
   obtain ⟨htot, _⟩ := prob_total hc hf
   have hpos : 0 < ((prob s).map List.sum).sum := by
@@ -54,16 +54,22 @@ theorem exists_pos_entry {s : St} {H : List (Nat × Nat)} {tn tn' : Nat} (hc : C
   rw [h1, h2]; exact hy0
 
 /-- **a job can always be drawn**: `pick()` succeeds for some outcome of positive probability -/
-theorem pick_possible {s : St} {H : List (Nat × Nat)} {tn tn' : Nat} (hc : Core s H tn') (hf : Fam s tn)
+theorem pick_possible {s : St} {H : List (Nat × Nat)} {tn tn' : Nat} (hc : CoreR s H tn') (hf : Fam s tn)
     (i : Nat) (hi : s.locks[i]? = some false) :
     ∃ o, 0 < entryM (prob s) o.t o.e ∧ ∃ r, pick s o = .ok r := by
   obtain ⟨t, e, hpos⟩ := exists_pos_entry hc hf i hi
-  obtain ⟨ht, he, hw⟩ := prob_pos hc t e hpos
+  obtain ⟨ht, he, hw⟩ := prob_posR hc t e hpos
   have hl : lock (swap s t e) e = .ok { swap s t e with locks := (swap s t e).locks.set e true } := by
     unfold lock
     have : (swap s t e).locks[e]? = some false := he
     rw [this]
-  obtain ⟨pn, hpn, _⟩ := lockStep_core hc t e hpos hl
+  have hTe : ∃ pn, ({ swap s t e with locks := (swap s t e).locks.set e true } : St).trajs.getD e none = some pn := by
+    obtain ⟨pn, hpn, _⟩ := hc.live t (hc.unlocked_lt t ht)
+    refine ⟨pn, ?_⟩
+    show (swapList s.trajs t e).getD e none = some pn
+    rw [List.getD_eq_getElem?_getD, swapList_getElem? _ _ _ _ (by rw [hc.lenT]; have := hc.unlocked_lt t ht; omega) (by rw [hc.lenT]; have := hc.unlocked_lt e he; omega), if_pos rfl, hpn]
+    rfl
+  obtain ⟨pn, hpn⟩ := hTe
   refine ⟨{ t := t, e := e, coin := false }, hpos, ?_⟩
   have hpc : ∃ ds, pickCore s { t := t, e := e, coin := false } =
       .ok ({ swap s t e with locks := (swap s t e).locks.set e true }, [((e : Int) - (off : Int), some pn)], ds) := by
